@@ -221,6 +221,35 @@ pub fn run(tier: &str) -> i32 {
     rep.count("edge_ids", ids.len() as u64);
     rep.count("edge_ids_beyond_zoom31", ids.iter().filter(|i| **i >= hilbert::base(32)).count() as u64);
 
+    // ---- call sequences on one thread: a forward conversion with ANY arguments (also zooms >= 32, coordinates
+    // outside the grid) must not influence the inverse conversions that follow
+    {
+        let mut nseq = 0u64;
+        let id_list: Vec<u64> = ids.iter().copied().collect();
+        for z in (0..=40u8).chain([63, 64, 255]) {
+            for (x, y) in [(0u64, 0u64), (1, 0), (3, 5), (u64::MAX, 0), (1 << 31, 1 << 31)] {
+                let _ = lib_tile_id(z, x, y);
+                nseq += 1;
+                for id in id_list.iter() {
+                    if let Some((k, d)) = check_id(*id) {
+                        rep.violation(format!("{k}/after-forward-call"), format!("after tile_id({z},{x},{y}) on the same thread: {d}"), json!({"kind":"sequence","z":z,"x":x.to_string(),"y":y.to_string(),"id":id.to_string()}));
+                    }
+                }
+                // and the other way round: inverse conversions must not influence forward ones
+                let _ = lib_zxy(u64::MAX);
+                let _ = lib_zxy(hilbert::base(32));
+                if z <= 31 {
+                    let n = 1u64 << z;
+                    if let Some((k, d)) = check_point(z, x % n, y % n) {
+                        rep.violation(format!("{k}/after-inverse-call"), d, json!({"kind":"point","z":z,"x":(x % n).to_string(),"y":(y % n).to_string()}));
+                    }
+                }
+            }
+        }
+        rep.eval(nseq * id_list.len() as u64);
+        rep.count("forward_then_inverse_sequences", nseq);
+    }
+
     lookup_clause(&rep);
 
     rep.force_sample(json!({"kind":"point","z":12,"x":"3423","y":"1763","id":"19078479"}));
@@ -295,6 +324,11 @@ fn lookup_clause(rep: &Report) {
     let mut mem = PMTiles::new(TileType::Png, Compression::None);
     for id in ids.iter() {
         mem.add_tile(*id, content_for(*id)).unwrap();
+    }
+    // the in-memory object additionally holds ids beyond the valid domain (add_tile accepts any u64): a lookup
+    // by coordinates that denote no tile must not be answered with one of those either
+    for id in [hilbert::base(32), hilbert::base(32) + 1, 1u64 << 63, u64::MAX - 1, u64::MAX] {
+        mem.add_tile(id, content_for(id)).unwrap();
     }
     let Ok(Ok(mut opened)) = catch(|| PMTiles::from_bytes(bytes.as_slice())) else {
         rep.violation("lookup/setup", "probe archive does not open", json!({"kind":"lookup-setup"}));
